@@ -7,6 +7,7 @@ import (
 	_ "verifharness/c04"
 	_ "verifharness/c05"
 	_ "verifharness/c06"
+	_ "verifharness/c07"
 	_ "verifharness/c10"
 	_ "verifharness/c10r"
 	_ "verifharness/c14"
